@@ -9,6 +9,7 @@ Execution model
 * designated merge points (calls of Iterator::next on a harness iterator at nesting level 0) pause a path;
   paused paths at the same program point are merged into one symbolic state and resumed together.
 """
+import os
 import re
 import time
 import itertools
@@ -28,6 +29,72 @@ def _sortable(k):
     if isinstance(k, (int, str)):
         return (str(type(k).__name__), k if isinstance(k, int) else 0, k if isinstance(k, str) else '')
     return (repr(k), 0, '')
+
+
+_VARS_CACHE = {}
+
+
+def vars_of(e):
+    """frozenset of the ids of the uninterpreted constants occurring in a z3 term (cached per term)"""
+    if not is_sym(e):
+        return frozenset()
+    k = e.get_id()
+    hit = _VARS_CACHE.get(k)
+    if hit is not None and hit[0] is e:
+        return hit[1]
+    out = set()
+    seen = set()
+    stack = [e]
+    while stack:
+        x = stack.pop()
+        xid = x.get_id()
+        if xid in seen:
+            continue
+        seen.add(xid)
+        sub = _VARS_CACHE.get(xid)
+        if sub is not None and sub[0].eq(x):
+            out |= sub[1]
+            continue
+        if z3.is_const(x):
+            if x.decl().kind() == z3.Z3_OP_UNINTERPRETED:
+                out.add(xid)
+            continue
+        stack.extend(x.children())
+    res = frozenset(out)
+    if len(_VARS_CACHE) > 200000:
+        _VARS_CACHE.clear()
+    _VARS_CACHE[k] = (e, res)
+    return res
+
+
+class _NotConcrete(Exception):
+    pass
+
+
+def _digest(v):
+    if isinstance(v, (bool, int, str, float)) or v is None:
+        return v
+    if isinstance(v, tuple):
+        return tuple(_digest(x) for x in v)
+    if isinstance(v, Struct):
+        return ('S', v.ty) + tuple(_digest(x) for x in v.fields)
+    if isinstance(v, Enum):
+        if is_sym(v.disc):
+            raise _NotConcrete()
+        return ('E', v.ty, v.disc) + tuple((i, tuple(_digest(x) for x in f)) for i, f in v.payloads)
+    if isinstance(v, Seq):
+        if is_sym(v.len):
+            raise _NotConcrete()
+        return ('Q', v.len) + tuple(_digest(x) for x in v.elems[:v.len])
+    if isinstance(v, (Closure, FnItem)):
+        return ('C', v.path) + (tuple(_digest(x) for x in v.captures) if isinstance(v, Closure) else ())
+    if is_sym(v) or isinstance(v, (Ref, MutSlice, Choice, SymStr)) or v is UNINIT:
+        raise _NotConcrete()
+    if getattr(v, 'symbolic_input', False):
+        raise _NotConcrete()
+    if hasattr(v, '__dataclass_fields__'):
+        return (type(v).__name__,) + tuple(_digest(getattr(v, f)) for f in v.__dataclass_fields__)
+    raise _NotConcrete()
 
 
 class PathEnd(Exception):
@@ -110,6 +177,8 @@ class Stats:
         self.bound_hits = 0
         self.panics_discharged = 0
         self.model_hits = 0
+        self.memo_hits = 0
+        self.independent_hits = 0
 
 
 class Executor:
@@ -119,17 +188,25 @@ class Executor:
         self.assumptions = list(assumptions)
         self.solver = z3.Solver()
         self.solver.set('timeout', timeout_ms)
+        self.dom_solver = z3.Solver()
+        self.dom_solver.set('timeout', timeout_ms)
         for a in self.assumptions:
             self.solver.add(a)
+            self.dom_solver.add(a)
         self.stats = Stats()
         self.panics = []          # PanicRecord
         self.bound_conds = []     # conditions under which the stated capacity bound was exceeded (outside the claim)
         self.intrinsics = {}
         self.static_dispatch = {}  # e.g. 'Replace::replace' -> callable / def name
         self.const_cache = {}
+        self._base_feas = {}
+        self._assm_vars = None
+        self.memo = {}
+        self.memo_suffixes = ('::exec_group', '::lemmatize', '::is_splittable', '::get_morph_marker')
         self.definitions = []     # equations naming merged conditions; must accompany every query about results
         self._callee_cache = {}
         self.cap = 16
+        self.use_domains = os.environ.get('MIRSYM_DOMAINS', '0') == '1'
         self.merge_policy = 'shape'   # 'shape': merge only states with the same concrete skeleton; 'full'
         self.merge_hook = None    # callable(executor, term, callee, args) -> bool : is this call a merge point?
         self.trace = False
@@ -139,8 +216,11 @@ class Executor:
 
     # ------------------------------------------------------------------ solver / decisions
     def add_assumption(self, a):
+        self._assm_vars = None
+        self._base_feas = {}
         self.assumptions.append(a)
         self.solver.add(a)
+        self.dom_solver.add(a)
 
     def _check(self, extra):
         t0 = time.time()
@@ -180,6 +260,7 @@ class Executor:
         else:
             feas = []
             wit = {}
+            undecided = []
             for i, c in enumerate(conds):
                 cb = concrete_bool(c)
                 if cb is False:
@@ -194,12 +275,40 @@ class Executor:
                     feas.append(i)
                     wit[i] = ms
                     continue
+                undecided.append(i)
+            if undecided:
+                undecided = self._independent_filter(conds, undecided, feas, wit)
+            if undecided:
                 self._sync_solver()
-                r, m = self._check_model(c)
-                if r == z3.unsat:
-                    continue
-                feas.append(i)
-                wit[i] = [m] if m is not None else []
+                if len(undecided) <= 2:
+                    for i in undecided:
+                        r, m = self._check_model(conds[i])
+                        if r != z3.unsat:
+                            feas.append(i)
+                            wit[i] = [m] if m is not None else []
+                else:
+                    # enumerate the feasible alternatives with one query per feasible alternative (+1)
+                    rest = list(undecided)
+                    while rest:
+                        r, m = self._check_model(z3.Or(*[conds[i] for i in rest]))
+                        if r == z3.unsat:
+                            break
+                        if m is None:
+                            for i in rest:       # unknown: keep everything (sound: extra paths are guarded)
+                                feas.append(i)
+                                wit[i] = []
+                            break
+                        hit = [i for i in rest if z3.is_true(m.eval(conds[i], model_completion=True))]
+                        if not hit:
+                            for i in rest:
+                                feas.append(i)
+                                wit[i] = []
+                            break
+                        for i in hit:
+                            feas.append(i)
+                            wit[i] = [m]
+                        rest = [i for i in rest if i not in hit]
+                feas.sort()
             if not feas:
                 raise PathEnd('infeasible')
             choice = feas[0]
@@ -211,6 +320,111 @@ class Executor:
         self.pathcond.append(c)
         self._dec_conds.append(c)
         return choice
+
+    def domain_of(self, var):
+        """values the variable can take under the assumptions and the condition at the start of the current segment
+        (an over-approximation of its values on the current path); cached per segment"""
+        k = var.get_id()
+        d = self._domains.get(k)
+        if d is not None:
+            return d
+        vals = set()
+        self.dom_solver.push()
+        try:
+            while len(vals) <= 256:
+                t0 = time.time()
+                r = self.dom_solver.check()
+                self.stats.solver_checks += 1
+                self.stats.solver_time += time.time() - t0
+                if r != z3.sat:
+                    if r != z3.unsat:
+                        vals = None       # unknown: no pruning
+                    break
+                v = self.dom_solver.model().eval(var, model_completion=True).as_long()
+                vals.add(v)
+                self.dom_solver.add(var != v)
+        finally:
+            self.dom_solver.pop()
+        d = frozenset(vals) if vals is not None else None
+        self._domains[k] = d
+        return d
+
+    def choose_by_domain(self, var, vals, conds):
+        """decision on the value of a digit variable: alternatives conds[i] = (var == vals[i]) plus optionally a last
+        'none of them'.  Feasibility is over-approximated by the variable's domain at the segment start (no solver call
+        per alternative); infeasible survivors are cut later by the exact checks at the leaves."""
+        k = self._dec_idx
+        if k < len(self._prefix) or not self.use_domains:
+            return self.choose(conds)
+        dom = self.domain_of(var)
+        if dom is None:
+            return self.choose(conds)
+        self._dec_idx += 1
+        feas = [i for i, v in enumerate(vals) if v in dom]
+        if len(conds) > len(vals) and (dom - set(vals)):
+            feas.append(len(vals))
+        # narrow with the decisions already taken on this path when they fix the variable syntactically
+        if not feas:
+            raise PathEnd('infeasible')
+        choice = feas[0]
+        for alt in reversed(feas[1:]):
+            self._worklist.append((self._prefix[:k] + [alt], []))
+        self._prefix.append(choice)
+        keep = [m for m in self._models if z3.is_true(m.eval(conds[choice], model_completion=True))]
+        self._models = keep
+        c = conds[choice]
+        self.pathcond.append(c)
+        self._dec_conds.append(c)
+        return choice
+
+    def _independent_filter(self, conds, undecided, feas, wit):
+        """alternatives whose variables (closed under the assumptions) are disjoint from the variables of the path
+        condition are feasible iff they are consistent with the assumptions alone (decided once per condition)"""
+        pcv = set()
+        for c in self.pathcond:
+            pcv |= vars_of(c)
+        rest = []
+        for i in undecided:
+            c = conds[i]
+            cv = self._closure(vars_of(c))
+            if cv & pcv:
+                rest.append(i)
+                continue
+            k = c.get_id()
+            hit = self._base_feas.get(k)
+            if hit is None or hit[0] is not c:
+                r = self._base_solver_check(c)
+                hit = (c, r)
+                self._base_feas[k] = hit
+            if hit[1]:
+                self.stats.independent_hits += 1
+                feas.append(i)
+                wit[i] = []
+        return rest
+
+    def _closure(self, vs):
+        """variables connected to vs through the assumptions"""
+        if self._assm_vars is None:
+            self._assm_vars = [vars_of(a) for a in self.assumptions if is_sym(a)]
+            self._assm_vars = [a for a in self._assm_vars if len(a) > 1]
+        out = set(vs)
+        changed = True
+        while changed:
+            changed = False
+            for a in self._assm_vars:
+                if a & out and not a <= out:
+                    out |= a
+                    changed = True
+        return out
+
+    def _base_solver_check(self, c):
+        s = z3.Solver()
+        s.set('timeout', 10000)
+        for a in self.assumptions:
+            s.add(a)
+        s.add(c)
+        self.stats.solver_checks += 1
+        return s.check() != z3.unsat
 
     def _check_model(self, extra):
         t0 = time.time()
@@ -228,6 +442,10 @@ class Executor:
             a = self._checklog.setdefault(k, [0, 0.0])
             a[0] += 1
             a[1] += dt
+            if r == z3.unsat and a[0] % 500 == 1:
+                import sys
+                print('UNSAT sample:', str(extra)[:200].replace(chr(10), ' '), '| decisions on path:',
+                      [str(c)[:40] for c in self._dec_conds[-4:]], file=sys.stderr, flush=True)
         return r, m
 
     def _sync_solver(self):
@@ -750,6 +968,18 @@ class Executor:
             a = self.concretize(a)
         if isinstance(b, Choice):
             b = self.concretize(b)
+        if op in ('Lt', 'Le', 'Gt', 'Ge', 'Eq', 'Ne'):
+            r = None
+            if hasattr(a, 'compare_const') and isinstance(b, float):
+                r = a.compare_const(op, b)
+            elif hasattr(b, 'compare_const') and isinstance(a, float):
+                r = b.compare_const({'Lt': 'Gt', 'Le': 'Ge', 'Gt': 'Lt', 'Ge': 'Le', 'Eq': 'Eq', 'Ne': 'Ne'}[op], a)
+            if isinstance(r, tuple):
+                # exact only for values of at most 15 digits: longer ones are outside the stated bounds
+                self.bound_if(z3.Not(r[1]), 'numeric value with more than 15 digits compared as a float')
+                r = r[2]
+            if r is not None:
+                return r
         if hasattr(a, 'to_fp'):
             a = a.to_fp()
         if hasattr(b, 'to_fp'):
@@ -1135,6 +1365,21 @@ class Executor:
             raise Paused('merge point')
         self._resuming = False
         target = self.lookup_callee(path, args)
+        if isinstance(target, Function) and self.memo_suffixes and target.name.endswith(self.memo_suffixes) \
+                and 'return' in t.targets:
+            key = self._memo_key(target, args)
+            if key is not None:
+                hit = self.memo.get(key)
+                if hit is not None:
+                    self.stats.memo_hits += 1
+                    self.finish_call(fr, t, hit[0])
+                    return
+                marks = (len(self._potential), len(self.panics), len(self.output_events), self._dec_idx)
+                ret = self.call_nested(target, args)
+                if marks == (len(self._potential), len(self.panics), len(self.output_events), self._dec_idx):
+                    self.memo[key] = (ret,)
+                self.finish_call(fr, t, ret)
+                return
         if isinstance(target, Function):
             if 'return' not in t.targets:
                 # diverging call (panic helpers are external, so this is a crate fn that never returns)
@@ -1146,6 +1391,13 @@ class Executor:
             return
         ret = target(self, args)
         self.finish_call(fr, t, ret)
+
+    def _memo_key(self, fn, args):
+        """hashable digest of fully concrete, reference-free arguments (else None)"""
+        try:
+            return (fn.name,) + tuple(_digest(a) for a in args)
+        except _NotConcrete:
+            return None
 
     def finish_call(self, fr, t, ret):
         if 'return' not in t.targets:
@@ -1191,6 +1443,11 @@ class Executor:
     def explore_segment(self, start: Snapshot):
         finished, paused = [], []
         self._worklist = [([], list(start.models))]
+        self._domains = {}
+        self.dom_solver.push()
+        for c in start.cond:
+            if not isinstance(c, bool):
+                self.dom_solver.add(c)
         self._solver_decs = []
         self._potential = []
         self._potential_bounds = []
@@ -1228,6 +1485,7 @@ class Executor:
                 self.solver.pop()
                 self._solver_decs.pop()
             self.solver.pop()
+            self.dom_solver.pop()
         self.panics.extend(self._potential)
         self.bound_conds.extend(self._potential_bounds)
         self._potential, self._potential_bounds = [], []
